@@ -409,11 +409,33 @@ class Gen:
         names = [g.name(c) for c in others if g.name(c) and g.name(c) not in mine]
         return self.rng.choice(names) if names else None
 
+    def scope_sibling_name(self, i):
+        """the name of ANOTHER element of the scope of i as the rules define it (class + owner set; ordinary nodes and
+        facilities are both NetworkNode elements of the one topology scope): a rename to it must be refused"""
+        g = self.g
+        sc = g.scope(i)
+        names = [n[3] for n in g.nodes if n[0] != i and n[3] and g.scope(n[0]) == sc and n[3] != g.name(i)]
+        return self.rng.choice(names) if names else None
+
     def op_rename(self):
         e = self.some_elem()
         if not e:
             return None
         ref, n = e
+        if 'rename_dup' not in self.avoid and self.rng.random() < 0.2:
+            # prefer a node when there is a facility (Topology.nodes hides facilities, the scope does not)
+            facs = [x for x in self.g.nodes if x[1] == O.NODE and x[2] == 'Facility']
+            cand = [x for x in self.g.nodes if x[1] == O.NODE] if facs and self.rng.random() < 0.6 else [n]
+            x = self.rng.choice(cand)
+            nm = self.scope_sibling_name(x[0])
+            if x[1] == O.NODE and facs and self.rng.random() < 0.7:
+                others = [f[3] for f in facs if f[0] != x[0] and f[3]]
+                nm = self.rng.choice(others) if others else nm
+            kind = {O.NODE: 'node', O.COMP: 'comp', O.NS: 'ns', O.LINK: 'link', O.CP: 'iface'}.get(x[1])
+            if nm and kind:
+                if self.rng.random() < 0.4:
+                    return ['set_prop', [kind, x[0]], self.rng.choice(['name', 'names']), nm]
+                return ['rename', [kind, x[0]], nm]
         if self.rng.random() < 0.3:
             cands = self.node_ifaces()
             self.rng.shuffle(cands)
@@ -434,8 +456,8 @@ class Gen:
         if not e:
             return None
         ref, n = e
-        p = self.rng.choice(['site', 'capacities', 'labels', 'details', 'name', 'name', 'type_node'])
-        if p == 'name':
+        p = self.rng.choice(['site', 'capacities', 'labels', 'details', 'name', 'name', 'names', 'type_node'])
+        if p in ('name', 'names'):
             code = self.fresh('r') if 'rename_dup' in self.avoid else self.new_name('r', n[1])
         elif p == 'site':
             code = self.rng.choice(SITES)
